@@ -89,13 +89,21 @@ Inductive kind := KWrite | KPersist (level : bool) | KRead | KTerm (level : bool
 
 Record thread := mkThread { t_kind : kind; t_pc : pc; t_hasconn : bool (* local: previousConn / conn non-nil *) }.
 
-Record state := mkState { sh : shared; threads : list (N * thread) }.
+Record state := mkState {
+  sh : shared;
+  threads : list (N * thread);
+  pending : list kind         (* goroutines started by a go statement that have not run yet *)
+}.
 
 (* ---------- events ---------- *)
 
 Inductive ev :=
-| ESpawn (k : kind)                       (* a new goroutine of kind k starts (API call or go statement) *)
+| ESpawn (k : kind)                       (* an API call starts in this goroutine *)
+| EStart (k : kind)                       (* a goroutine started by a go statement runs its first instruction *)
 | ERecvW (ok : bool) (v : wval)           (* received from writeSem: ok=false means closed *)
+| ERecvWAny                                (* received from writeSem, value and ok discarded by the code *)
+| ERecvSAny (level : bool)                 (* received from a seqSem, value and ok discarded by the code *)
+| EOffline                                 (* toOffline starts *)
 | ESendW (v : wval)
 | ECloseW
 | ERecvC (ok : bool) (has_conn : bool)
@@ -135,6 +143,12 @@ Definition recv_w (s : shared) (ok : bool) (v : wval) : option shared :=
   | WClosed, false => Some s
   | _, _ => None
   end.
+Definition recv_w_any (s : shared) : option shared :=
+  match writesem s with
+  | WFull _ => Some (s <| writesem := WEmpty |>)
+  | WClosed => Some s
+  | WEmpty => None
+  end.
 Definition send_c (s : shared) (hc : bool) : option shared :=
   match connsem s with
   | CEmpty => Some (s <| connsem := CFull hc |>)
@@ -163,6 +177,13 @@ Definition recv_s (s : shared) (l ok : bool) : option shared :=
   | _, _ => None
   end.
 
+Definition recv_s_any (s : shared) (l : bool) : option shared :=
+  match get_seq s l with
+  | SFull => Some (set_seq s l SEmpty)
+  | SClosed => Some s
+  | SEmpty => None
+  end.
+
 (* one event of thread t in shared state s: new shared state, new pc, goroutines spawned *)
 Definition tstep (s : shared) (t : thread) (e : ev) : option (shared * thread * list kind) :=
   let stay (s' : option shared) (p : pc) :=
@@ -182,9 +203,8 @@ Definition tstep (s : shared) (t : thread) (e : ev) : option (shared * thread * 
   (* ---- submitPersisted ---- *)
   | KPersist l, P_seq, ERecvS l' true => if Bool.eqb l l' then stay (recv_s s l true) P_have else None
   | KPersist l, P_seq, ERecvS l' false => if Bool.eqb l l' then stay (recv_s s l false) Done else None
-  | KPersist l, P_have, ECtx c => if Bool.eqb c (ctx s) then
-                                    (if c then Some (s, setpc t P_release, []) else Some (s, setpc t P_have, []))
-                                  else None
+  | KPersist l, P_have, ECtx c => if c then (if ctx s then Some (s, setpc t P_release, []) else None)
+                                  else Some (s, setpc t P_have, [])
   | KPersist l, P_have, EIO false => Some (s, setpc t P_release, [])              (* ErrMax or Save error *)
   | KPersist l, P_have, EIO true =>                                              (* saved and enqueued *)
       if (if l then qclosed2 s else qclosed1 s) then Some (panic s, setpc t P_release, [])
@@ -205,7 +225,7 @@ Definition tstep (s : shared) (t : thread) (e : ev) : option (shared * thread * 
       | None => None
       end
   | KRead, R_ctxchk, ECtx c =>
-      if Bool.eqb c (ctx s) then (if c then Some (s, setpc t R_failcs, []) else Some (s, setpc t R_dial, [])) else None
+      if c then (if ctx s then Some (s, setpc t R_failcs, []) else None) else Some (s, setpc t R_dial, [])
   | KRead, R_dial, EIO false => Some (s, setpc t R_failw, [])        (* Load or Dial failed *)
   | KRead, R_dial, ECtx true => if ctx s then Some (s, setpc t R_failcs, []) else None   (* dial interrupted: context.Canceled *)
   | KRead, R_dial, EIO true =>                                       (* dialed: the abort goroutine starts *)
@@ -222,14 +242,13 @@ Definition tstep (s : shared) (t : thread) (e : ev) : option (shared * thread * 
       | AClosedEmpty, false => Some (s, setpc t (if hs then R_seq1 else R_failw), [])
       | _, _ => None
       end
-  | KRead, R_failw, ERecvW true v => stay (recv_w s true v) R_faildown
-  | KRead, R_failw, ERecvW false v => stay (recv_w s false v) R_faildown        (* no ok check in the code *)
+  | KRead, R_failw, ERecvWAny => stay (recv_w_any s) R_faildown                  (* no ok check in the code *)
   | KRead, R_faildown, ESendW WvDown => stay (send_w s WvDown) R_failcs
   | KRead, R_failcs, ESendC hc => if Bool.eqb hc (t_hasconn t) then stay (send_c s hc) R_idle else None
   (* the sequence semaphores are received without an ok check *)
-  | KRead, R_seq1, ERecvS false ok => stay (recv_s s false ok) R_seq2
-  | KRead, R_seq2, ERecvS true ok => stay (recv_s s true ok) R_wsem
-  | KRead, R_wsem, ERecvW ok v => stay (recv_w s ok v) R_cssend
+  | KRead, R_seq1, ERecvSAny false => stay (recv_s_any s false) R_seq2
+  | KRead, R_seq2, ERecvSAny true => stay (recv_s_any s true) R_wsem
+  | KRead, R_wsem, ERecvWAny => stay (recv_w_any s) R_cssend
   | KRead, R_cssend, ESendC true => stay (send_c s true) R_resend1
   | KRead, R_resend1, EIO ok => Some (s, setpc t (R_seq1back ok), [])
   | KRead, R_seq1back ok, ESendS false => stay (send_s s false) (if ok then R_resend2 else R_seq2back false)
@@ -246,11 +265,15 @@ Definition tstep (s : shared) (t : thread) (e : ev) : option (shared * thread * 
   | KRead, R_ackunlock true, ESendW WvConn => stay (send_w s WvConn) R_idle
   | KRead, R_ackunlock false, ESendW WvPend => stay (send_w s WvPend) R_idle
   (* ---- read routine: toOffline ---- *)
-  | KRead, R_idle, EIO false => Some (s, setpc t R_off, [])                     (* a read or write failed: toOffline *)
-  | KRead, R_off, ERecvW true v => stay (recv_w s true v) R_offput
+  | KRead, R_idle, EOffline => Some (s, setpc t R_off, [])                      (* a read or write failed: toOffline *)
+  | KRead, R_off, ERecvW true v => match writesem s with
+                                   | WFull _ => Some (s <| writesem := WEmpty |>, setpc t R_offput, [])
+                                   | _ => None end                               (* value discarded *)
   | KRead, R_off, ERecvW false v => stay (recv_w s false v) R_idle              (* closed: return *)
-  | KRead, R_off, EDefault => match writesem s with WEmpty => Some (s, setpc t R_offwait, []) | _ => None end
-  | KRead, R_offwait, ERecvW true v => stay (recv_w s true v) R_offput
+  | KRead, R_off, EDefault => Some (s, setpc t R_offwait, [])
+  | KRead, R_offwait, ERecvW true v => match writesem s with
+                                       | WFull _ => Some (s <| writesem := WEmpty |>, setpc t R_offput, [])
+                                       | _ => None end
   | KRead, R_offwait, ERecvW false v => stay (recv_w s false v) R_idle
   | KRead, R_offput, ESendW WvPend => stay (send_w s WvPend) R_idle
   (* ---- read routine: termCallbacks (only after an ErrClosed, hence with the context canceled) ---- *)
@@ -293,8 +316,8 @@ Definition tstep (s : shared) (t : thread) (e : ev) : option (shared * thread * 
       | None => None
       end
   | KClose, K_sel, ERecvW true v => stay (recv_w s true v) K_closew
-  | KClose, K_sel, EDefault => match writesem s with WEmpty => Some (s, setpc t K_recv2, []) | _ => None end
-  | KClose, K_recv2, ERecvW true v => stay (recv_w s true v) K_closew
+  | KClose, K_sel, EDefault => Some (s, setpc t K_recv2, [])
+  | KClose, K_recv2, ERecvWAny => stay (recv_w_any s) K_closew
   | KClose, K_closew, ECloseW =>
       match writesem s with
       | WClosed => Some (panic s, setpc t K_closec, [])
@@ -313,7 +336,7 @@ Definition tstep (s : shared) (t : thread) (e : ev) : option (shared * thread * 
       | None => None
       end
   | KDisc, D_sel, EQuit => Some (s, setpc t D_quitrecv, [])
-  | KDisc, D_quitrecv, ERecvW true v => stay (recv_w s true v) D_closew
+  | KDisc, D_quitrecv, ERecvWAny => stay (recv_w_any s) D_closew
   | KDisc, D_sel, ERecvW true WvConn => stay (recv_w s true WvConn) D_io
   | KDisc, D_sel, ERecvW true v => stay (recv_w s true v) D_closew
   | KDisc, D_io, EIO _ => Some (s, setpc t D_closew, [])
@@ -345,27 +368,41 @@ Fixpoint set_thread (l : list (N * thread)) (i : N) (t : thread) : list (N * thr
   | (j, t') :: r => if j =? i then (i, t) :: r else (j, t') :: set_thread r i t
   end.
 
-(* an observed event: goroutine i did e; spawned goroutines get the identifiers in [kids] *)
-Record obs := mkObs { o_tid : N; o_ev : ev; o_kids : list N }.
+(* an observed event: goroutine i did e *)
+Record obs := mkObs { o_tid : N; o_ev : ev }.
 
-Fixpoint add_kids (l : list (N * thread)) (ks : list kind) (ids : list N) : option (list (N * thread)) :=
-  match ks, ids with
-  | [], [] => Some l
-  | k :: ks', i :: ids' =>
-    match find_thread l i with
-    | Some _ => None
-    | None => add_kids (set_thread l i (new_thread k)) ks' ids'
-    end
-  | _, _ => None
+Definition kind_eqb (a b : kind) : bool :=
+  match a, b with
+  | KWrite, KWrite | KRead, KRead | KAbort, KAbort | KClose, KClose | KDisc, KDisc => true
+  | KPersist l, KPersist l' | KTerm l, KTerm l' => Bool.eqb l l'
+  | _, _ => false
   end.
+Fixpoint remove_kind (k : kind) (l : list kind) : option (list kind) :=
+  match l with
+  | [] => None
+  | x :: r => if kind_eqb x k then Some r
+              else match remove_kind k r with Some r' => Some (x :: r') | None => None end
+  end.
+Definition restartable (t : thread) : bool :=
+  match t_pc t with Done | R_idle | T_done | A_done => true | _ => false end.
 
 Definition step (st : state) (o : obs) : option state :=
   match o_ev o with
   | ESpawn k =>
-    (* an API call from the application: any number of them, at any time *)
-    match k, find_thread (threads st) (o_tid o) with
-    | (KWrite | KPersist _ | KRead | KClose | KDisc), None =>
-        Some (mkState (sh st) (set_thread (threads st) (o_tid o) (new_thread k)))
+    (* an API call from the application: any number of them, at any time, in a fresh goroutine or in
+       one whose previous call returned *)
+    match k with
+    | KWrite | KPersist _ | KRead | KClose | KDisc =>
+      match find_thread (threads st) (o_tid o) with
+      | None => Some (mkState (sh st) (set_thread (threads st) (o_tid o) (new_thread k)) (pending st))
+      | Some t => if restartable t then Some (mkState (sh st) (set_thread (threads st) (o_tid o) (new_thread k)) (pending st))
+                  else None
+      end
+    | _ => None
+    end
+  | EStart k =>
+    match find_thread (threads st) (o_tid o), remove_kind k (pending st) with
+    | None, Some p' => Some (mkState (sh st) (set_thread (threads st) (o_tid o) (new_thread k)) p')
     | _, _ => None
     end
   | e =>
@@ -374,16 +411,12 @@ Definition step (st : state) (o : obs) : option state :=
     | Some t =>
       match tstep (sh st) t e with
       | None => None
-      | Some (s', t', ks) =>
-        match add_kids (set_thread (threads st) (o_tid o) t') ks (o_kids o) with
-        | Some l => Some (mkState s' l)
-        | None => None
-        end
+      | Some (s', t', ks) => Some (mkState s' (set_thread (threads st) (o_tid o) t') (pending st ++ ks))
       end
     end
   end.
 
-Definition init_state : state := mkState init_shared [].
+Definition init_state : state := mkState init_shared [] [].
 
 Fixpoint run (st : state) (tr : list obs) : option state :=
   match tr with
